@@ -1,5 +1,5 @@
 (* entry points for operation sequences on manifests *)
-From PM Require Import Model.EntryBase Model.Manifests.
+From PM Require Import Model.EntryBase Model.Manifests Model.Common Model.Images.
 
 Definition run_ops {S} (step : S -> pyval -> option (result S)) (snap : S -> pyval) (init : S) (ops : list pyval) : pyval :=
   PList (snd (fold_left (fun acc op =>
@@ -56,3 +56,66 @@ Definition ep_relative_to (v : pyval) : pyval :=
 Definition entries_ops : list (str * (pyval -> pyval)) :=
   [ (lit "ops_rpms", ep_ops_rpms); (lit "ops_modules", ep_ops_modules); (lit "ops_extra", ep_ops_extra);
     (lit "dump_for_tree", ep_dump_for_tree); (lit "relative_to", ep_relative_to) ].
+
+(* ---------------- images *)
+Fixpoint get_pool (i : nat) (l : list pyval) : option (list image) :=
+  match l with
+  | [] => Some []
+  | PDict kv :: l' => match get_pool (S i) l' with Some r => Some ((i, kv) :: r) | None => None end
+  | _ => None
+  end.
+
+Definition snap_cells (c : cells_t) : pyval :=
+  map_vals (map_vals (fun imgs => PList (map (fun im => PInt (Z.of_nat (fst im))) imgs))) c.
+
+Definition step_images (vt : N * N) (pool : list image) (c : cells_t) (op : pyval) : option (result cells_t) :=
+  match op with
+  | PList [PStr v; PStr a; PInt i] =>
+      match nth_error pool (Z.to_nat i) with
+      | Some img => Some (images_add vt c v a img)
+      | None => None
+      end
+  | _ => None
+  end.
+
+(* [version; compose; pool; ops] -> per-op outcomes, then the dump *)
+Definition ep_ops_images (v : pyval) : pyval :=
+  match v with
+  | PList [ver; PDict compose; PList pool; PList ops] =>
+      match get_pool O pool with
+      | None => bad_input
+      | Some pl =>
+          let ver := match ver with PNone => current_version | _ => ver end in   (* None: a fresh Images(), version never touched *)
+          match version_tuple (lit "common.Header") ver with
+          | Err e => out_err e
+          | Ok vt =>
+              let steps := run_ops (step_images vt pl) snap_cells [] ops in
+              let final := fold_left (fun st op => match step_images vt pl st op with Some (Ok st') => st' | _ => st end) ops [] in
+              PList [steps; out_result (fun d => d) (dump_images {| im_version := ver; im_compose := compose; im_cells := final |})]
+          end
+      end
+  | _ => bad_input
+  end.
+
+(* document -> loaded manifest described by: cells (ids), every image's attributes, compose, and its re-dump *)
+Definition describe_images (st : images_st) : pyval :=
+  PList [snap_cells (im_cells st);
+         map_vals (map_vals (fun imgs => PList (map (fun im => PList [PInt (Z.of_nat (fst im)); PDict (snd im)]) imgs))) (im_cells st);
+         PDict (im_compose st);
+         out_result (fun d => d) (dump_images st)].
+
+Definition ep_load_images (v : pyval) : pyval := out_result describe_images (load_images v).
+
+Definition ep_identify (v : pyval) : pyval :=
+  match v with
+  | PDict kv => PList [PList (identify_obj kv);
+                       match ser_image kv with
+                       | Ok (PDict d) => PList (identify_dict d)
+                       | Ok _ => PNone
+                       | Err e => out_err e
+                       end]
+  | _ => bad_input
+  end.
+
+Definition entries_images : list (str * (pyval -> pyval)) :=
+  [ (lit "ops_images", ep_ops_images); (lit "load_images", ep_load_images); (lit "identify", ep_identify) ].
